@@ -12,35 +12,59 @@ open Consts WFField Evolve
 
 /-- **C04_unknown_ignored**: for every well-formed schema (`EnvWF`), every struct `S` of it, every
     well-typed value `vals` of `S`, a target `ovs` whose members are as `ResetDefault` leaves a
-    fresh struct (`OldOK`, inside `MembersOK`), and every admissible interleaving (`gaps`, `tail`)
-    of well-formed fields whose tags are not in the schema: `ReadFrom` returns the same outcome on
-    the merged message as on `encStruct` of the value alone.
+    fresh struct (`OldOK`, inside `MembersTyped`), and every admissible interleaving (`gaps`,
+    `tail`) of well-formed fields whose tags are not in the schema: `ReadFrom` returns the same
+    outcome on the merged message as on `encStruct` of the value alone.
 
-    `MembersOK` is the member-wise form of C03's `WellTyped` (tag < 256, `TyOK`, `DfltOK`, `WT`,
-    `OldOK`) plus `needVar v ≤ N`.  Remaining model artefacts: the fuel `decFuel` of both runs
-    exceeds `N + #members` and the rank `rk S ≤ env.length` of the struct (the latter so that
-    `ResetDefault`, which descends the by-value nesting of the schema without consuming input, is
-    not cut short: `EnvWF` makes that nesting acyclic, `C04_resetDefault_stable_acyclic`).
-    `decFuel = (width+3)·(size+2) ≥ 6` does not dominate `env.length`: `hL`, `hL'` are vacuous for
-    nesting depth ≤ 5 (`C04_rank_small`) and would be for every schema with `+ env.length` added
-    to `decFuel`. -/
-theorem C04_unknown_ignored (env : Env) (rk : String → Nat) (hE : EnvWF env rk) (N : Nat)
+    `MembersTyped` is the member-wise form of C03's `WellTyped` (tag < 256, `TyOK`, `DfltOK`, `WT`,
+    `OldOK`).  No hypothesis about the model fuel is left: `decFuel` of either run exceeds the fuel
+    the members' reads need (C03's `fuelOK_all`: at most `(width+3)·bytes + 2`) plus the member
+    count, and the rank of the struct (`C04_resetDefault_decFuel`). -/
+theorem C04_unknown_ignored (env : Env) (rk : String → Nat) (hE : EnvWF env rk)
     (S : String) (fs : List Field) (vals ovs : List Val) (gaps : List (List WFField))
     (tail : List WFField) (r r' : Reader) (t t' : Bytes)
     (hfind : env.find S = some fs) (hlo : ovs.length = fs.length) (hlv : vals.length = fs.length)
     (hlg : gaps.length = fs.length)
-    (hok : MembersOK env rk N fs (resetDefault env (decFuel env r) fs ovs) vals)
+    (hok : MembersTyped env rk fs (resetDefault env (decFuel env r) fs ovs) vals)
     (hadm : Admissible 0
       (gaps.zip (encSlots env fs (resetDefault env (decFuel env r) fs ovs) vals)) tail)
-    (hF : N + fs.length < decFuel env r) (hF' : N + fs.length < decFuel env r')
-    (hL : rk S < decFuel env r) (hL' : rk S < decFuel env r')
     (ht : Evolve.Terminated t) (ht' : Evolve.Terminated t')
     (h : r.rest = merged
       (gaps.zip (encSlots env fs (resetDefault env (decFuel env r) fs ovs) vals)) tail ++ t)
     (h' : r'.rest = encStruct env S (.struct vals) ++ t') :
-    (decStruct env S (.struct ovs) r).1 = (decStruct env S (.struct ovs) r').1 :=
-  C04_unknown_ignored_enc_partial env rk (envAcyclic_of_envWF hE) N S fs vals ovs gaps tail r r' t t'
-    hfind hlo hlv hlg hadm (encSlots_ok env rk hE N fs _ vals hok) hF hF' hL hL' ht ht' h h'
+    (decStruct env S (.struct ovs) r).1 = (decStruct env S (.struct ovs) r').1 := by
+  have hwt := membersTyped_WTm env rk fs _ vals hok
+  have hb := fuelOK_members env vals (fun v _ => fuelOK_all env v) fs hwt
+  have hw := find_width env S fs hfind
+  have hol : (resetDefault env (decFuel env r) fs ovs).length = fs.length := by
+    rw [decFuel_pos]; exact resetDefault_length env _ fs ovs hlo.symm
+  -- the encoded members fit in either input
+  have hsz' : (encMembers env fs vals).length ≤ r'.data.size := by
+    have := congrArg List.length h'
+    simp [Reader.rest, encStruct, hfind] at this
+    omega
+  have hsz : (encMembers env fs vals).length ≤ r.data.size := by
+    have h1 := merged_length_ge
+      (gaps.zip (encSlots env fs (resetDefault env (decFuel env r) fs ovs) vals)) tail
+    have hzip := map_snd_zip gaps (encSlots env fs (resetDefault env (decFuel env r) fs ovs) vals)
+      (by rw [hlg, encSlots_length env fs _ vals hol hlv])
+    rw [merged_strip, hzip, plain_encSlots env fs _ vals hol hlv] at h1
+    have := congrArg List.length h
+    simp [Reader.rest] at this
+    omega
+  have key : ∀ x : Reader, (encMembers env fs vals).length ≤ x.data.size →
+      needElems vals + fs.length < decFuel env x := by
+    intro x hx
+    have : (env.width + 3) * (encMembers env fs vals).length ≤ (env.width + 3) * x.data.size :=
+      Nat.mul_le_mul_left _ hx
+    unfold decFuel
+    rw [Nat.mul_add]
+    omega
+  exact C04_unknown_ignored_enc_partial env rk (envAcyclic_of_envWF hE) (needElems vals) S fs vals ovs
+    gaps tail r r' t t' hfind hlo hlv hlg hadm
+    (encSlots_ok env rk hE _ fs _ vals
+      (membersOK_of_typed env rk _ fs _ vals (needVar_le_needElems vals) hok))
+    (key r hsz) (key r' hsz') ht ht' h h'
 
 /-- non-vacuity: all hypotheses hold together for the schema, value and unknown fields of the
     example in Props/C04.lean (`a = 5`, `b = ""` left out by the writer) -/
@@ -59,28 +83,24 @@ example :
       rcases hf with rfl | rfl <;> simp [FieldOK, TyOK]
     · cases h
   have hfind : C04_exEnv.find "S" = some C04_exFs := by simp [C04_exEnv, Env.find]
-  have hf1 : decFuel C04_exEnv (Reader.mk0 (merged C04_exItems C04_exTail)) = 89 + 1 := by decide
+  have hf1 : decFuel C04_exEnv (Reader.mk0 (merged C04_exItems C04_exTail)) = 90 + 1 := by decide
   have henc : encStruct C04_exEnv "S" (.struct [.int 5, .str []]) = [Tars.byte 0x20, 5] := by
     simp [encStruct, hfind, C04_exFs, encMembers, encVar, Ty.isScalar, scalarNeDefault, scalarZero, writeScalar]
     decide
-  have hf2 : decFuel C04_exEnv (Reader.mk0 (encStruct C04_exEnv "S" (.struct [.int 5, .str []]))) = 19 + 1 := by
+  have hf2 : decFuel C04_exEnv (Reader.mk0 (encStruct C04_exEnv "S" (.struct [.int 5, .str []]))) = 20 + 1 := by
     rw [henc]; decide
   have hr : ∀ x : Bytes, (Reader.mk0 x).rest = x ++ [] := by intro x; simp [Reader.rest, Reader.mk0]
-  have hold : resetDefault C04_exEnv (89 + 1) C04_exFs [.int 0, .str []] = [.int 0, .str []] := by
+  have hold : resetDefault C04_exEnv (90 + 1) C04_exFs [.int 0, .str []] = [.int 0, .str []] := by
     simp [C04_exFs, Evolve.resetDefault_cons, resetDefault_nil_left, resetMember, zeroOf, zeroVal,
       scalarZero]
   have hitems : ([[.zero 0, .string1 1 [Tars.byte 65]], [.list 3 [.zero 0, .zero 0]]] : List (List WFField)).zip
       (encSlots C04_exEnv C04_exFs [.int 0, .str []] [.int 5, .str []]) = C04_exItems := by
     simp [encSlots, C04_exFs, C04_exItems, encVar, Ty.isScalar, scalarNeDefault, scalarZero, writeScalar]
-  refine C04_unknown_ignored C04_exEnv (fun _ => 0) hwf 1 "S" C04_exFs [.int 5, .str []] _
+  refine C04_unknown_ignored C04_exEnv (fun _ => 0) hwf "S" C04_exFs [.int 5, .str []] _
     [[.zero 0, .string1 1 [Tars.byte 65]], [.list 3 [.zero 0, .zero 0]]] C04_exTail _ _ [] []
-    hfind rfl rfl rfl ?_ ?_ ?_ ?_ ?_ ?_ (.inl rfl) (.inl rfl) ?_ (hr _)
+    hfind rfl rfl rfl ?_ ?_ (.inl rfl) (.inl rfl) ?_ (hr _)
   · rw [hf1, hold]
-    simp [MembersOK, C04_exFs, TyOK, DfltOK, WT, ScalarOK, OldOK, Ready, Ty.isAtom, Ty.isScalar, scalarZero, needVar]
+    simp [MembersTyped, C04_exFs, TyOK, DfltOK, WT, ScalarOK, OldOK, Ready, Ty.isAtom, Ty.isScalar, scalarZero]
   · rw [hf1, hold, hitems]; simp +decide [Admissible, C04_exItems, C04_exTail]
-  · rw [hf1]; decide
-  · rw [hf2]; decide
-  · rw [hf1]; decide
-  · rw [hf2]; decide
   · rw [hf1, hold, hitems]; exact hr _
 end Tars
